@@ -63,6 +63,17 @@ CHECKS = {
    text="TLC enumerates 742 (quick) helper calls - tile, repeat_rows, merge/split leading dims, sum_except_batch for every num_batch_dims, searchsorted on four location vectors x 21 inputs, cbrt on cubes of both signs and 0, logabsdet on 256 integer matrices (all signs, singular), mask constructors for 1..7 features, type-check predicates on int/bool/float/str/None tokens - and proves the algebraic laws. The same calls run on the real helpers with arange / power-of-two tagged tensors so that placement and summation sets are compared exactly, in float32 and float64, with arguments compared before / after.",
    design_ref="DESIGN.md section 4, C20",
    note="Shapes of <= 3 dims with sizes <= 3 (4 thorough); gaussian_kde_log_eval is covered under C05. " + TRUSTED),
+
+ "C09": dict(
+   technique="Exact rational TLA+ transcription of the four spline families (spec/Spline.tla over Rat.tla) model-checked by TLC on a parameter x input lattice; every lattice case executed on the real spline functions with floating-point neighbours of all knots in float32 / float64",
+   text="The four piecewise transformers are rational functions of their normalised parameters, so the specification is exact: TLC proves strict monotonicity, continuity across knots and at the tail bound, pinned end points, range within the box, identity tails and positive derivatives on every lattice case (bins 1..3, degenerate and non-uniform parameters, different width / height floors, unit / asymmetric / tail boxes incl. 64). Each case is executed on the real functions (parameters fed as pre-images) on the lattice points and their 1-ulp neighbours: monotone up to rounding noise, strictly increasing between lattice points, inside the box, end points pinned, tails bit-identical with zero log-det; values are compared with the exact model (agreement 1e-9 on the pinned tree).",
+   design_ref="DESIGN.md section 4, C09",
+   note="Lattice parameters and inputs only (measure-zero set the random tests never visit); bins <= 3. " + TRUSTED),
+ "C17": dict(
+   technique="TLA+ specifications of the bin search / domain checks (spec/Spline.tla incl. the float absorption fact) and of the scalar domains (spec/Scalar.tla) model-checked by TLC; every state executed on the real code in float32 / float64 with 1-ulp neighbours, denormals, large and non-representable bounds",
+   text="TLC proves InDomainAccepted / OutOfDomainRejected on the exact bin search (and derives the out-of-range bin index of an unclamped search for bounds >= 32 in float32) and on the open / closed domains of the Exp, Tanh, Sigmoid, Logit and CauchyCDF inverses with the probed element anywhere in a batch. Every state runs on the real code: outcome must be finite values or InputOutsideDomain exactly as specified; both spline directions, end points, outside points, tail bounds 31, 32, 1e3, 1e4 and float32-unrepresentable bounds (0.7, 3.3, 17.3, 1000.1).",
+   design_ref="DESIGN.md section 4, C17",
+   note="Outcome classes only (values are C01/C02). " + TRUSTED),
 }
 REASONS = {}
 
